@@ -972,7 +972,7 @@ impl Formatter {
     if self.html {
       format!("<div class=\"mech-success-block\">{}</div>",success_paragraph)
     } else {
-      format!("(✓)>> {}\n",success_paragraph)
+      format!("(✓)> {}\n",success_paragraph)
     }
   }
 
@@ -981,7 +981,7 @@ impl Formatter {
     if self.html {
       format!("<div class=\"mech-warning-block\">{}</div>",warning_paragraph)
     } else {
-      format!("(!)>> {}\n",warning_paragraph)
+      format!("(!)> {}\n",warning_paragraph)
     }
   }
 
@@ -999,7 +999,7 @@ impl Formatter {
     if self.html {
       format!("<div class=\"mech-error-block\">{}</div>",error_paragraph)
     } else {
-      format!("(✗)>> {}\n",error_paragraph)
+      format!("(✗)> {}\n",error_paragraph)
     }
   }
 
